@@ -15,21 +15,41 @@ for m in sorted(glob.glob(os.path.join(root, "seeded", "*", "meta.json"))):
 text = """
 ## 11. Seeded changes: which check catches which
 
-Forty changes were written by twenty fresh sub-agents, each given only one property's text and its own scratch worktree
-(nothing from /verif), asked for two changes that break the property, compile, pass the 320 existing tests, and need
-something specific to manifest. Every one was re-confirmed by me in its worktree (`bin/confirm_mutant`: patch applies,
-`go build ./...`, full suite green with the change, demonstration fails with it and passes without it) and then run
-against the property's **quick** check (`bin/mutate`: `git -C /repo apply`, `bin/check <id>`, `git -C /repo checkout -- .`).
-They are kept under `seeded/<property>-<n>/` (patch.diff, demo_test.go, notes.md, meta.json). First pass: 34 of 40
-caught. The six misses and what was strengthened: C07-2 (needs a failed 2nd terminate of a force batch followed by a
-scale-up in the same scan: scale-up oracles now stay on when faults are confined to removal calls, and the generator
-scripts that failure), C12-1 (cross-group counting of `NotIn`/foreign-key expressions: generator now emits
-"In mine, NotIn theirs" pods; the miss itself was the global violation cap), C12-2 (panic only when the update fails
-but the read succeeds: update-only failures added to the pair runs), C13-2 (int64 overflow above 84 TiB requested:
-large-cluster percent sweep added), C16-2 (case-insensitive lifecycle: near-miss spellings added to the grid), C19-1
-(stale cache after a partly failed batch: second request without refresh + cloud-side minimum refusal is a violation),
-C19-2 (wrapped not-in-group error no longer fatal: exact scans with an outsider in the reaper batch must return it).
-After that all forty are caught by the quick check of the property they were written against.
+Eighty changes were written by forty fresh sub-agents in two rounds (`-1`,`-2` first round, `-3`,`-4` second round), each
+agent given only one property's text and its own scratch worktree of /repo (nothing from /verif) and asked for two
+changes that break the property, compile, pass the 320 existing tests, and need something specific to manifest; the
+second round was also told which mechanisms the first round had used and asked for different ones (helpers, caches,
+state kept between scans, error paths). Every change was re-confirmed by me in its worktree (`bin/confirm_mutant`:
+patch applies, `go build ./...`, full suite green with the change, demonstration fails with it and passes without it)
+and then run against the property's **quick** check (`bin/mutate`: `git -C /repo apply`, `bin/check <id>`,
+`git -C /repo checkout -- .`). They are kept under `seeded/<property>-<n>/` (patch.diff, demo_test.go, notes.md,
+meta.json). In addition `bin/own_mutants.py` applies 53 mechanical mutants taken from the M lists of section 4
+(boundary operators, dropped guards, swapped rates ...): all 53 are caught (`mutants-own/RESULTS.md`).
+
+First round: 34 of 40 caught at first try. The six misses and what was strengthened: C07-2 (needs a failed 2nd
+terminate of a force batch followed by a scale-up in the same scan: scale-up oracles now stay on when faults are confined
+to removal calls, and the generator scripts that failure), C12-1 (cross-group counting of `NotIn`/foreign-key
+expressions: generator now emits "In mine, NotIn theirs" pods; the miss itself was a global cap on recorded violations),
+C12-2 (panic only when the update fails but the read succeeds: update-only failures added to the pair runs), C13-2 (int64
+overflow above 84 TiB requested: large-cluster percent sweep added), C16-2 (case-insensitive lifecycle: near-miss
+spellings added to the grid), C19-1 (stale cache after a partly failed batch: second request without refresh, and a
+cloud-side minimum refusal is a violation), C19-2 (wrapped not-in-group error no longer fatal: exact scans with an
+outsider in the reaper batch must return it).
+
+Before the second round was tried, the generator was extended from reading the agents' reports (world changes between
+escalator's read and write, stray pods of other groups on a group's nodes, in-place pod resizes, node-size changes and
+drained groups, lowered cloud maxima, a failing refresh, scripted fleet failures, lagging Node garbage collection, nodes
+pushing the count beyond max_nodes) and the direct checks got second calls without refresh, long-lived listers, exactly
+full nodes and the third consecutive fleet failure. Second round: 35 of 40 caught at first try; the five misses: C01-3
+(reaping from a stale node→pods map when the node count exceeds max_nodes: extra nodes now push groups over the
+maximum), C07-3 (request *below* the remainder was not judged: `cloud-request-below-remainder` added), C07-4 (wrong taint
+removed after a genuine 409: a foreign taint is now lifted between escalator's read and write of the node it updates
+first; scale-up exactness extended to scans with mid-scan changes), C09-4 (remembered failed deletes hitting a cordoned
+node: Nodes of terminated instances now linger for a few reconciles), C12-3 (fleet failure counter shared between
+groups: `scan-aborted:` check under C12 and the fatal key now carries the failure streak of the group, so that the known
+escape hatch at three failures does not mask an exit at one or two).
+
+After that all eighty are caught by the quick check of the property they were written against.
 
 | Seeded change | Files | What was changed | Needs, to manifest | Quick check of that property |
 |---|---|---|---|---|
